@@ -1087,11 +1087,23 @@ func scanDigitMax(c *core.Ctx) []ob {
 					return true
 				}
 				be, ok := unparen(is.Cond).(*ast.BinaryExpr)
-				if !ok || be.Op != token.LSS {
+				if !ok || (be.Op != token.LSS && be.Op != token.GEQ) {
 					return true
 				}
 				if identObj(info, be.X) != j {
 					return true
+				}
+				if be.Op == token.GEQ {
+					// the skipping form `if j >= sizes[i] { continue }`
+					skip := false
+					if len(is.Body.List) > 0 {
+						if br, ok := is.Body.List[len(is.Body.List)-1].(*ast.BranchStmt); ok && br.Tok == token.CONTINUE {
+							skip = true
+						}
+					}
+					if !skip {
+						return true
+					}
 				}
 				if ix, ok := unparen(be.Y).(*ast.IndexExpr); ok {
 					if iv := identObj(info, ix.Index); iv != nil && iv.Pos() > body.Pos() && iv.Pos() < body.End() {
